@@ -25,6 +25,7 @@ RULE = (
     "Non-trivial: a buffer case with both defined and undefined pixels inside the rectangle; distinct by spec."
     ' Also: half of the buffer operations re-use the buffer object of the previous one; persistence histories through one to three Pyra'
     'midIO handles on one directory; two stand-ins for absent tiles alive side by side.'
+    ' Round 8: history steps that empty (clear / fill from an undefined source) or re-fill the very object handed out by update_image / read_image and store it; fully defined update sources.'
 )
 ASSUMPTIONS = ["negative integer pixels and paired-index-array updates are outside the statement (rectangles; zero = undefined)"]
 MODES = ["RGB", "RGBA", "U8", "I16", "I32", "F32", "F64", "F16x3"]
